@@ -28,7 +28,9 @@ tie.  `vector_integer_conformance_coverage` compares the proved rows with the RE
 what remains covered by the differential tie only.
 
 Findings of this proof round (see also `known_findings.d/C03V.json`, notes/C03V.md):
-* `v_lshl_add_u64` (both ALUs) shifts by `S1[5:0]`, the ISA by `S1[2:0]`: `*_runVLSHLADDU64_refuted`, `_partial`.
+* `v_lshl_add_u64` (both ALUs) shifted by `S1[5:0]`, the ISA by `S1[2:0]`: REPAIRED (round R4) — `*_runVLSHLADDU64_conforms`
+  for every shift count; the bodies before the repair are kept (`lh_*_runVLSHLADDU64Old`) with
+  `*_runVLSHLADDU64_before_fix_refuted` and `_before_fix_partial`.
 * GCN3 `v_lshrrev_b32` shifts the 64-bit operand value: correct only because SRC1 of VOP2 is a VGPR
   (`gcn3_runVLSHRREVB32_conforms` on `Src1IsVgpr`, `gcn3_runVLSHRREVB32_full_refuted`). -/
 namespace C03V.Conf
@@ -207,17 +209,26 @@ theorem gcn3_runVADD3U32_conforms (n : String) : Conforms lh_gcn3_runVADD3U32 (t
 /-- `gcn3` `runVLSHLADDU64` (aluvop3a.go:542): the FULL statement — conformance for every shift count -/
 def gcn3_runVLSHLADDU64_full : Prop := Conforms lh_gcn3_runVLSHLADDU64 lshlAddU64Op
 
-/-- … is FALSE: the handler shifts by `S1[5:0]`, the ISA by `S1[2:0]` (S0 = 1, S1 = 8, S2 = 0: code 0x100, ISA 1) -/
-theorem gcn3_runVLSHLADDU64_refuted : ¬ gcn3_runVLSHLADDU64_full := by
+/-- … holds since the repair: the handler shifts by `S1[2:0]` as the ISA does -/
+theorem gcn3_runVLSHLADDU64_conforms : gcn3_runVLSHLADDU64_full :=
+  conf_plain _ rfl (by
+    conf_start [lh_gcn3_runVLSHLADDU64, raw_gcn3_runVLSHLADDU64, specLane, laneIn, lshlAddU64Op, maskOf, tr_32, tr_64,
+      ge_iff_le, Nat.le_refl, if_true, w32_lo32, w64_toNat, show (2:Nat) ≤ 3 from by decide, lshl_add64_eq, and_self])
+
+/-- the same statement about the body before the repair (`& 0x3F`) -/
+def gcn3_runVLSHLADDU64_before_fix : Prop := Conforms lh_gcn3_runVLSHLADDU64Old lshlAddU64Op
+
+/-- … is FALSE: the handler shifted by `S1[5:0]`, the ISA by `S1[2:0]` (S0 = 1, S1 = 8, S2 = 0: code 0x100, ISA 1) -/
+theorem gcn3_runVLSHLADDU64_before_fix_refuted : ¬ gcn3_runVLSHLADDU64_before_fix := by
   intro h
   have := (h C06.Uni.zero lshlAddWitness (by decide) rfl trivial).1
   revert this
   decide
 
-/-- `gcn3` `runVLSHLADDU64`: conformance for shift counts `S1[5:0] < 8` (compilers emit 0..4) -/
-theorem gcn3_runVLSHLADDU64_partial : ConformsOn ShiftBelow8 lh_gcn3_runVLSHLADDU64 lshlAddU64Op :=
+/-- the body before the repair conformed for shift counts `S1[5:0] < 8` (compilers emit 0..4) -/
+theorem gcn3_runVLSHLADDU64_before_fix_partial : ConformsOn ShiftBelow8 lh_gcn3_runVLSHLADDU64Old lshlAddU64Op :=
   conf_plain_on _ _ rfl (by
-    conf_start [lh_gcn3_runVLSHLADDU64, raw_gcn3_runVLSHLADDU64, specLane, laneIn, lshlAddU64Op, maskOf, tr_32, tr_64,
+    conf_start [lh_gcn3_runVLSHLADDU64Old, raw_gcn3_runVLSHLADDU64Old, specLane, laneIn, lshlAddU64Op, maskOf, tr_32, tr_64,
       ge_iff_le, Nat.le_refl, if_true, w32_lo32, w64_toNat, show (2:Nat) ≤ 3 from by decide]
     intro hdom
     exact ⟨trivial, congrArg BitVec.toNat (lshl_add64_lt8 _ _ _ hdom)⟩)
@@ -516,17 +527,26 @@ theorem cdna3_runVADD3U32_conforms (n : String) : Conforms lh_cdna3_runVADD3U32 
 /-- `cdna3` `runVLSHLADDU64` (cdna3/vop3a.go:320): the FULL statement — conformance for every shift count -/
 def cdna3_runVLSHLADDU64_full : Prop := Conforms lh_cdna3_runVLSHLADDU64 lshlAddU64Op
 
-/-- … is FALSE: the handler shifts by `S1[5:0]`, the ISA by `S1[2:0]` (S0 = 1, S1 = 8, S2 = 0: code 0x100, ISA 1) -/
-theorem cdna3_runVLSHLADDU64_refuted : ¬ cdna3_runVLSHLADDU64_full := by
+/-- … holds since the repair: the handler shifts by `S1[2:0]` as the ISA does -/
+theorem cdna3_runVLSHLADDU64_conforms : cdna3_runVLSHLADDU64_full :=
+  conf_plain _ rfl (by
+    conf_start [lh_cdna3_runVLSHLADDU64, raw_cdna3_runVLSHLADDU64, specLane, laneIn, lshlAddU64Op, maskOf, tr_32, tr_64,
+      ge_iff_le, Nat.le_refl, if_true, w32_lo32, w64_toNat, show (2:Nat) ≤ 3 from by decide, and7_toNat, lshl_add64_eq, and_self])
+
+/-- the same statement about the body before the repair (`& 0x3F`) -/
+def cdna3_runVLSHLADDU64_before_fix : Prop := Conforms lh_cdna3_runVLSHLADDU64Old lshlAddU64Op
+
+/-- … is FALSE: the handler shifted by `S1[5:0]`, the ISA by `S1[2:0]` (S0 = 1, S1 = 8, S2 = 0: code 0x100, ISA 1) -/
+theorem cdna3_runVLSHLADDU64_before_fix_refuted : ¬ cdna3_runVLSHLADDU64_before_fix := by
   intro h
   have := (h C06.Uni.zero lshlAddWitness (by decide) rfl trivial).1
   revert this
   decide
 
-/-- `cdna3` `runVLSHLADDU64`: conformance for shift counts `S1[5:0] < 8` (compilers emit 0..4) -/
-theorem cdna3_runVLSHLADDU64_partial : ConformsOn ShiftBelow8 lh_cdna3_runVLSHLADDU64 lshlAddU64Op :=
+/-- the body before the repair conformed for shift counts `S1[5:0] < 8` (compilers emit 0..4) -/
+theorem cdna3_runVLSHLADDU64_before_fix_partial : ConformsOn ShiftBelow8 lh_cdna3_runVLSHLADDU64Old lshlAddU64Op :=
   conf_plain_on _ _ rfl (by
-    conf_start [lh_cdna3_runVLSHLADDU64, raw_cdna3_runVLSHLADDU64, specLane, laneIn, lshlAddU64Op, maskOf, tr_32, tr_64,
+    conf_start [lh_cdna3_runVLSHLADDU64Old, raw_cdna3_runVLSHLADDU64Old, specLane, laneIn, lshlAddU64Op, maskOf, tr_32, tr_64,
       ge_iff_le, Nat.le_refl, if_true, w32_lo32, w64_toNat, show (2:Nat) ≤ 3 from by decide, and63_toNat]
     intro hdom
     exact ⟨trivial, congrArg BitVec.toNat (lshl_add64_lt8 _ _ _ hdom)⟩)
@@ -895,7 +915,7 @@ def provedRows : List ProvedRow := [
   ⟨true, .vop3a, 510, .all, lh_cdna3_runVADDLSHLU32, tri32 _ addLshl, rfl, rfl, cdna3_runVADDLSHLU32_conforms _⟩,
   ⟨true, .vop3a, 511, .all, lh_cdna3_runVADD3U32, tri32 _ add3, rfl, rfl, cdna3_runVADD3U32_conforms _⟩,
   ⟨true, .vop3a, 512, .all, lh_cdna3_runVLSHLORB32, tri32 _ lshlOr, rfl, rfl, cdna3_runVLSHLORB32_conforms _⟩,
-  ⟨true, .vop3a, 520, .shiftBelow8, lh_cdna3_runVLSHLADDU64, lshlAddU64Op, rfl, rfl, cdna3_runVLSHLADDU64_partial⟩,
+  ⟨true, .vop3a, 520, .all, lh_cdna3_runVLSHLADDU64, lshlAddU64Op, rfl, rfl, cdna3_runVLSHLADDU64_conforms⟩,
   ⟨true, .vop3a, 645, .all, lh_cdna3_runVMULLOU32, bin32 _ mulLo, rfl, rfl, cdna3_runVMULLOU32_conforms _⟩,
   ⟨true, .vop3a, 646, .all, lh_cdna3_runVMULHIU32, bin32 _ mulHiU, rfl, rfl, cdna3_runVMULHIU32_conforms _⟩,
   ⟨true, .vop3a, 655, .all, lh_cdna3_runVLSHLREVB64, lshlrevB64Op, rfl, rfl, cdna3_runVLSHLREVB64_conforms⟩,
@@ -970,7 +990,7 @@ def provedRows : List ProvedRow := [
   ⟨false, .vop3a, 469, .all, lh_gcn3_runVMAX3U32, tri32 _ max3U, rfl, rfl, gcn3_runVMAX3U32_conforms _⟩,
   ⟨false, .vop3a, 472, .all, lh_gcn3_runVMED3U32, tri32 _ med3U, rfl, rfl, gcn3_runVMED3U32_conforms _⟩,
   ⟨false, .vop3a, 511, .all, lh_gcn3_runVADD3U32, tri32 _ add3, rfl, rfl, gcn3_runVADD3U32_conforms _⟩,
-  ⟨false, .vop3a, 520, .shiftBelow8, lh_gcn3_runVLSHLADDU64, lshlAddU64Op, rfl, rfl, gcn3_runVLSHLADDU64_partial⟩,
+  ⟨false, .vop3a, 520, .all, lh_gcn3_runVLSHLADDU64, lshlAddU64Op, rfl, rfl, gcn3_runVLSHLADDU64_conforms⟩,
   ⟨false, .vop3a, 645, .all, lh_gcn3_runVMULLOU32, bin32 _ mulLo, rfl, rfl, gcn3_runVMULLOU32_conforms _⟩,
   ⟨false, .vop3a, 646, .all, lh_gcn3_runVMULHIU32, bin32 _ mulHiU, rfl, rfl, gcn3_runVMULHIU32_conforms _⟩,
   ⟨false, .vop3a, 655, .all, lh_gcn3_runVLSHLREVB64, lshlrevB64Op, rfl, rfl, gcn3_runVLSHLREVB64_conforms⟩,
@@ -1198,14 +1218,14 @@ def differentialKeys : List Row := differentialOnly.map (·.1)
 
 /-- **Coverage summary.** The vector / memory entries of the regenerated opcode switches of both ALUs
     (VOP1/VOP2/VOPC/VOP3a/VOP3b/SMEM/DS/FLAT, in table order) are exactly partitioned into the entries covered by a
-    conformance PROOF (`provedRows`: 159 — 156 for all operand values, GCN3 `v_lshrrev_b32` on VGPR SRC1,
-    `v_lshl_add_u64` ×2 for shift counts < 8) and the entries listed in `differentialOnly` with their reason (182:
+    conformance PROOF (`provedRows`: 159 — 158 for all operand values, GCN3 `v_lshrrev_b32` on VGPR SRC1;
+    `v_lshl_add_u64` ×2 for every shift count since the repair of the shift mask) and the entries listed in `differentialOnly` with their reason (182:
     float data path 113, float handlers in integer clothing 2, memory 56, untranslated handlers 8, no ISA table entry
     3).  A new handler, a moved opcode, or a handler that stops translating changes the regenerated tables and breaks
     this theorem (the `#eval` above names the entry). -/
 theorem vector_integer_conformance_coverage :
     interleaves vectorRows provedKeys differentialKeys = true ∧
-    provedKeys.length = 159 ∧ (provedRows.filter fun p => p.dom == .all).length = 156 ∧
+    provedKeys.length = 159 ∧ (provedRows.filter fun p => p.dom == .all).length = 158 ∧
     differentialKeys.length = 182 ∧
     (differentialOnly.filter fun d => d.2 == .float).length = 113 ∧
     (differentialOnly.filter fun d => d.2 == .memory).length = 56 := by decide +kernel
